@@ -94,9 +94,19 @@ inline bool is_scratch(const void *p)
     return q >= b + X.n * X.es && q <= b + X.cap * X.es && (q - b) % X.es == 0;
 }
 
+// a comparator may itself sort something else (a sub-list, a key it builds): sorting must be re-entrant
+bool g_nested_sort, g_nested_sort_bad;
+int int_cmp(const void *a, const void *b, void *) { return (*(const int *)a > *(const int *)b) - (*(const int *)a < *(const int *)b); }
+void nested_sort_once()
+{
+    int v[7] = {5, 3, 9, 1, 7, 3, 0}, t;
+    cstl_raw_array_sort(v, 7, sizeof v[0], int_cmp, nullptr, cstl_swap, &t, CSTL_SORT_ALGORITHM_DEFAULT);     // library call from within the comparator
+    for (int i = 1; i < 7; i++) if (v[i - 1] > v[i]) g_nested_sort_bad = true;
+}
 int hcmp(const void *a, const void *b, void *priv)
 {
     X.cmp_calls++;
+    if (g_nested_sort && X.mode == 1 && X.cmp_calls == 3) nested_sort_once();
     CHECK_NOTHROW(priv == (void *)&X, "C11.cmp_priv", "compare callback received priv %p, the caller passed %p", priv,
                   (void *)&X);
     bool ok;
@@ -557,6 +567,22 @@ void vf_run(const uint8_t *data, size_t len)
             CHECK(r == (ssize_t)g_first[k], "C11.find", "find(key %u) on the unsorted input returned %zd, first match is at %d",
                   k, r, g_first[k]);
         }
+        // the probe may be an element of the array itself (looking for an earlier duplicate of arr[i]): still the FIRST match
+        for (size_t j = 0; j < 6 && n > 0; j++) {
+            size_t i = j == 0 ? n - 1 : j == 1 ? n / 2 : (n - 1) * j / 6;
+            const uint8_t *pe = base + i * es;
+            uint32_t k = key_of(pe);
+            X.probe = pe;
+            X.cmp_calls = 0;
+            ssize_t r;
+            if (g_replay_mode == 1) TRACE("> find probe=&arr[%zu] (key %u)", i, k);
+            if (entry == E_RAW) LIB(r = cstl_raw_array_find(base, n, es, pe, hcmp, &X));
+            else LIB(r = cstl_vector_find(&g_vec, pe, hcmp, &X));
+            X.probe = g_probe;
+            CHECK(k < g_first.size() && r == (ssize_t)g_first[k], "C11.find", "find with the probe &arr[%zu] (key %u) returned %zd, the first match is at %d",
+                  i, k, r, k < g_first.size() ? g_first[k] : -2);
+            CNT("class.find.probe_is_element");
+        }
         CHECK(n == 0 || memcmp(base, in.data(), n * es) == 0, "C11.find", "find modified the array");
         TRACE("find: %zu probes agree (first match / -1)", fp.size());
     }
@@ -568,6 +594,9 @@ void vf_run(const uint8_t *data, size_t len)
         X.cmp_calls = X.swap_calls = 0;
         X.t_seen = nullptr;
         cstl_swap_func_t *sw = cswap ? hswap : cstl_swap;
+        g_nested_sort = (h[9] & 0x20) != 0;
+        g_nested_sort_bad = false;
+        if (g_nested_sort) CNT("class.sort.comparator_sorts");
         if (g_replay_mode == 1) TRACE("> sort");
         if (entry == E_RAW) LIB(cstl_raw_array_sort(base, n, es, hcmp, &X, sw, scratch, algo));
         else if (wrapper) LIB(cstl_vector_sort(&g_vec, hcmp, &X));
@@ -575,6 +604,8 @@ void vf_run(const uint8_t *data, size_t len)
         TRACE("sort -> keys=%s cmp_calls=%llu custom_swaps=%llu rand_calls=%llu (script %zu)",
               keys_str(base, n, es).c_str(), (unsigned long long)X.cmp_calls, (unsigned long long)X.swap_calls,
               (unsigned long long)g_rand_calls, g_script.size());
+        g_nested_sort = false;
+        CHECK(!g_nested_sort_bad, "C11.sorted", "a sort of seven ints started from inside the comparator of another sort came back unsorted");
         vec_intact("sort");
         for (size_t i = 1; i < n; i++)
             CHECK(key_of(base + (i - 1) * es) <= key_of(base + i * es), "C11.sorted",
@@ -717,7 +748,7 @@ void vf_gen(Rng &r, std::vector<uint8_t> &out)
     out.push_back((uint8_t)nshape);
     out.push_back((uint8_t)(nshape >> 8));
     out.push_back(r.byte());                 // shape parameter / seed
-    out.push_back(0);                        // G1 limit: none
+    out.push_back(r.chance(1, 8) ? 0x20 : 0); // G1 limit: none; 1 in 8: the comparator itself sorts a small array
     for (size_t i = 0; i < nexp; i++) { out.push_back(0); out.push_back(r.byte()); out.push_back(r.byte()); }
     if (seli == 1 || r.chance(1, 16)) {      // rand() script
         size_t n = nexp + nshape;
